@@ -236,9 +236,20 @@ func jobPayload(p []byte) []byte {
 	return bz
 }
 
+// jobPayload0x writes the same bytes with the customary 0x prefix (both spellings denote the same payload).
+func jobPayload0x(p []byte) []byte {
+	bz, _ := json.Marshal(map[string]string{"hexPayload": "0x" + hex.EncodeToString(p)})
+	return bz
+}
+
 func (w *JobWorld) CreateJob(u *world.Account, id, chain string, contract common.Address, payload []byte, modifiable, mev bool, forgedOwner sdk.AccAddress) {
+	enc := jobPayload
+	if w.T.Draw(4) == 3 {
+		enc = jobPayload0x
+		w.R.Stats.Probe("job_payload_with_0x_prefix")
+	}
 	job := &schedulertypes.Job{ID: id, Owner: forgedOwner, Routing: schedulertypes.Routing{ChainType: "evm", ChainReferenceID: chain},
-		Definition: jobDefinition(contract), Payload: jobPayload(payload), IsPayloadModifiable: modifiable, EnforceMEVRelay: mev}
+		Definition: jobDefinition(contract), Payload: enc(payload), IsPayloadModifiable: modifiable, EnforceMEVRelay: mev}
 	res := w.Submit(u, &schedulertypes.MsgCreateJob{Metadata: meta(u), Job: job})
 	if res.Accepted() {
 		w.pending = append(w.pending, &jobOp{kind: "create", user: u, tx: res.Tx,
@@ -271,6 +282,9 @@ func (w *JobWorld) ExecuteJob(u *world.Account, id string, payload []byte) {
 	var in []byte
 	if payload != nil {
 		in = jobPayload(payload)
+		if w.T.Draw(4) == 3 {
+			in = jobPayload0x(payload)
+		}
 	}
 	signer, md := u, meta(u)
 	if u == w.Granter && w.T.Draw(3) == 1 {
